@@ -182,6 +182,9 @@ func (r *replayer) compareResult(w *World, path []Action, a *Action, res Result)
 	} else if a.A == "RemoveNode" && len(res.Closed) > 0 {
 		r.mismatch(Mismatch{Props: []string{"C06", "C05"}, What: "refused RemoveNode closed a node", Path: path, Action: a, Expected: []string{}, Observed: res.Closed})
 	}
+	if (a.A == "RegisterNode" || a.A == "RegisterPipeline" || a.A == "RemovePipeline" || a.A == "SetThreshold") && !failed(a.R) && len(res.Closed) > 0 {
+		r.mismatch(Mismatch{Props: []string{"C06", "C07"}, What: a.A + " closed a node (only RemoveNode and RemovePipelineAndNodes close nodes; re-registering an id must not disturb earlier pipelines)", Path: path, Action: a, Expected: []string{}, Observed: res.Closed})
+	}
 	if failed(a.R) && a.A != "RemoveNode" && len(res.Closed) > 0 {
 		r.mismatch(Mismatch{Props: []string{"C05", "C06"}, What: "failed call closed a node", Path: path, Action: a, Expected: []string{}, Observed: res.Closed})
 	}
